@@ -26,13 +26,14 @@ def run(ctx):
                 raise vlib.Infra("sensitivity: SnowVM_MC_smallfifo no longer violates AcceptParentPopulated")
     fails, stats = S.record_and_validate(ctx, ["ready"], ctx.pick(80, 1200), ctx.pick(50, 70), "ready")
     if ctx.only is None:
-        for k in ("ev_reject", "ev_build", "ev_dequeue", "ev_process", "ev_accept"):
+        for k in ("ev_reject", "ev_build", "ev_dequeue", "ev_process", "ev_accept", "ev_acceptfail", "mid_accept_probes"):
             if not stats.get(k):
                 raise vlib.Infra("vacuous run: no %s event recorded" % k)
     vlib.report_failures(ctx, fails, S.describe)
     ctx.cov["rule"] = ("tv: seeded snowman-consistent engine schedules (parse new/known/orphan blocks, build, verify, accept with "
                        "transitive rejection of conflicts, set preference, gated async accept processing with backlog up to "
-                       "cache-1) against a real snow.VM with parsed-cache 1..3 and accepted-window 2..4; a scenario is "
+                       "cache-1; lookups from a second goroutine while Accept is inside the chain index write; the chain index refusing a write once, "
+                       "then the accept retried) against a real snow.VM with parsed-cache 1..3 and accepted-window 2..4; a scenario is "
                        "non-trivial when a fork was decided (an accept followed by a rejection); distinct = distinct "
                        "(event,result,#callbacks,#notifications) sequences")
     ctx.assumptions += ["the engine is snowman-consistent: verifies only children of processing/last-accepted blocks, accepts only a "
